@@ -538,6 +538,27 @@ func c18Case(w *core.W, j int) {
 			}
 		}
 	}
+	// alterations of the SIG RDATA that change its length (RDLENGTH adjusted): octets behind the signature,
+	// and - the signature being the last field - the two integers of an ECDSA signature each with a zero
+	// octet in front (the same numbers, but not the r | s of RFC 6605)
+	if rawSig, derr := base64.StdEncoding.DecodeString(sig.Signature); derr == nil && len(rawSig) > 0 && len(rawSig) < len(out) && bytes.HasSuffix(out, rawSig) && out[p.bodyEnd] == 0 {
+		relen := func(b []byte, delta int) []byte {
+			binary.BigEndian.PutUint16(b[p.bodyEnd+9:], uint16(int(binary.BigEndian.Uint16(b[p.bodyEnd+9:]))+delta))
+			return b
+		}
+		for _, n := range []int{1, 2, len(rawSig)} {
+			if len(out)+n <= 65535 {
+				judge("sig-octets-appended", relen(append(append([]byte(nil), out...), make([]byte, n)...), n))
+			}
+		}
+		if len(rawSig)%2 == 0 && len(out)+2 <= 65535 {
+			h := len(rawSig) / 2
+			head := append([]byte(nil), out[:len(out)-len(rawSig)]...)
+			alt := append(append(append(append(head, 0), rawSig[:h]...), 0), rawSig[h:]...)
+			judge("sig-halves-zero-padded", relen(alt, 2))
+		}
+		w.Count("signature_length_alterations", 1)
+	}
 	o := walkOffsets(out)
 	r2 := w.Rng(j, 2)
 	for i := 0; i < 60; i++ {
